@@ -33,6 +33,12 @@ func VerifC08_Stall(h *zz.H) {
 	inSend := false
 	fireDuringSend := false
 	nsend := 0
+	// (lemma) the send timer is armed only while a response is being sent: whenever the sender goes
+	// back to the queue for the next item, no timer is armed - so a subscriber that is merely slow is
+	// never timed out between two sends (probe on the real coalesce.Queue.Next)
+	h.OnEntry("(*coalesce.Queue).Next", func() {
+		h.Assert(h.ArmedTimers() == 0, "C08: the send timer is never armed while the sender fetches the next item (armed only while sending)")
+	})
 	st.onSend = func(r *pb.SubscribeResponse) error {
 		nsend++
 		if stall != 0 && nsend == 1 {
